@@ -80,6 +80,20 @@ def system(name, shape, dtype):
     return F, J, g
 
 
+def relayout(F, J, shape, layout):
+    """the same system with its residual returned in another layout than the unknown (same number of elements)"""
+    n = int(np.prod(shape)) if shape else 1
+    if layout == "flat":
+        fshape = (n,)
+    elif layout == "column":
+        fshape = (n, 1)
+    else:
+        return F, J
+    F2 = lambda x: np.reshape(F(x), fshape)
+    J2 = lambda x: np.reshape(J(x), fshape + tuple(shape))
+    return F2, J2
+
+
 SYSTEMS = ["sepquad", "coupled", "trig", "expremote", "cubic", "rootless", "atan"]
 SHAPES = [[], [1], [2], [3], [6], [12], [2, 3]]
 
@@ -91,6 +105,7 @@ def solve_case(case):
     shape = tuple(case["shape"])
     n = int(np.prod(shape)) if shape else 1
     F, J, guesses = system(case["system"], shape, dtype)
+    F, J = relayout(F, J, shape, case.get("layout"))
     x0 = np.asarray(guesses[case["guess"]], dtype=dtype)
     tol = case["tol"]
     tol_eff = float(D.tol_epsilon(np.dtype(dtype))) if tol is None else tol
@@ -134,7 +149,7 @@ def solve_case(case):
 def run(ctx):
     ctx.rule = ("full product 7 systems (separable quadratics, coupled polynomial, trigonometric, exponential with remote root, cubic with singular Jacobian at the root, two rootless) "
                 "x shapes {(), (1,), (2,), (3,), (6,), (12,), (2,3)} x solvers {nonlinear_roots float64 = MINPACK path, nonlinear_roots longdouble = built-in dogleg then Newton, "
-                "newtontrustregion, hybrj} x Jacobian {analytic, finite differences} x guesses {near, far, singular point, huge (1e6)} x tol {1e-6, 1e-10, None}; "
+                "newtontrustregion, hybrj} x Jacobian {analytic, finite differences} x guesses {near, far, singular point, huge (1e6)} x residual layout {as the unknown, flat, column} x tol {1e-6, 1e-10, None}; "
                 "distinct = distinct (solver, system, dtype, jacobian, guess, success) classes")
     ctx.assumptions += ["an exception counts as a reported failure", "residual re-evaluated in longdouble; bound 100*tol*(n + ||x||), tol None = the solvers' default 32 eps",
                         "systems are O(1)-scaled so a converged step and a small residual mean the same"]
@@ -153,6 +168,12 @@ def run(ctx):
                             if ctx.quick and shp in ([12], [6]) and jac == "fd" and tol is None:
                                 continue
                             cases.append(dict(system=sysn, shape=shp, solver=solver, dtype=dn, jac=jac, guess=guess, tol=tol))
+                            # the residual returned flat / as a column while the unknown is matrix- or vector-shaped
+                            if tol == 1e-6 and guess in ("near", "far") and shp in ([2, 3], [3], [2]) and solver != "hybrj":
+                                for lay in ("flat", "column"):
+                                    if lay == "flat" and len(shp) == 1:
+                                        continue
+                                    cases.append(dict(system=sysn, shape=shp, solver=solver, dtype=dn, jac=jac, guess=guess, tol=tol, layout=lay))
     grid.pmap(solve_case, cases, ctx, horizon=300)
     ctx.note("cases", total=len(cases))
 
